@@ -7,6 +7,8 @@ namespace GS.ReqMgr
 
 /-- the kinds of stage the response-processing entry point of the request manager is built from
     (recognised by the translator from the *shape* of the called function):
+    * `dropForeignLive` drop the responses whose request is in progress with a peer other than the
+                       message's sender (responses for requests that are not in the table pass)
     * `filterForPeer`  keep the responses whose request exists and was sent to the message's sender
     * `extensions`     run the response hooks; send update messages; on a hook error send a cancel,
                        cancel the request and drop the response
@@ -14,7 +16,7 @@ namespace GS.ReqMgr
     * `ingest`         hand metadata + blocks to the request's reconciled loader
     * `terminations`   act on terminal statuses -/
 inductive StageOp where
-  | filterForPeer | extensions | updateLast | ingest | terminations
+  | dropForeignLive | filterForPeer | extensions | updateLast | ingest | terminations
 deriving DecidableEq, Repr
 
 /-- addressee of a message sent while processing a response: the peer the message came from, or
